@@ -170,6 +170,19 @@ def consumers(F):
                     for o in mir.provenance(g, du, t["args"][1]):
                         if o.kind == "const" and "str" in o.const:
                             keys.add(o.const["str"])
+                        elif o.kind == "arg" and g["def_kind"] != "Closure":
+                            # `fn required_field(adhoc, key: &str, ..)`: the keys are the constants passed by the callers
+                            # that belong to this consumer's closure
+                            from .common import callers_index
+                            for caller, ct in callers_index(F).get(p, []):
+                                if caller["path"] not in reach and (caller.get("owner") or "") not in reach:
+                                    continue
+                                if o.local - 1 < len(ct["args"]):
+                                    cdu = mir.DefUse(caller)
+                                    for oc in mir.provenance(caller, cdu, ct["args"][o.local - 1]):
+                                        sv = mir.promoted_str(F, oc.const) if oc.kind == "const" else None
+                                        if sv is not None:
+                                            keys.add(sv)
         for lit, file, line in names:
             ent = out.setdefault(lit, {"keys": set(), "fns": set(), "sites": []})
             ent["keys"] |= keys
